@@ -46,6 +46,17 @@ def cases(draw, max_members):
     prefix = [draw(tagcheck.op_strategy(specs, 'valid')) for _ in range(draw(st.integers(0, 6)))]
     n = draw(st.integers(1, max_members))
     members = []
+    if draw(st.integers(0, 19)) == 0 and any(sp['type'] in M.FIXED_TYPES for sp in specs):
+        # a bundle around the 8-bit boundary of the member count (the count field is 16 bits wide): 255..300 small requests
+        n = draw(st.sampled_from([255, 256, 257, 300]))
+        pool = [draw(tagcheck.op_strategy(specs, 'valid')) for _ in range(6)]
+        small = {sp['name']: sp for sp in specs if sp['type'] in M.FIXED_TYPES}
+        # (request and reply of the whole bundle must stay far below the 65535-byte frame limit: at most 2 fixed-size elements each)
+        pool = [o for o in pool if o['tag'] in small and len(o.get('values') or ()) <= 2 and (o.get('count') or 1) <= 2
+                and (o['svc'] not in ('get_attr', 'set_attr') or small[o['tag']]['length'] <= 2)] or [
+            {'svc': 'read_tag', 'tag': sorted(small)[0], 'form': 'sym', 'case': 0, 'sess': 0, 'wrap': True, 'elem': 0, 'count': 1}]
+        members = [dict(pool[draw(st.integers(0, len(pool) - 1))]) for _ in range(n)]
+        return {'specs': specs, 'prefix': prefix, 'members': members}
     for _ in range(n):
         mode = draw(st.sampled_from(['valid', 'valid', 'edge']))
         if members and draw(st.integers(0, 2)) == 0:
@@ -228,6 +239,9 @@ def client_cases(draw, k):
     for op in ops:
         op['route'] = 0
         op['send'] = 0
+        if op['svc'] in ('get_attr', 'set_attr') and not op.get('unknown_object') and c12.SPEC_TYPE.get(op['tag'].lower()) in M.FIXED_TYPES \
+                and draw(st.booleans()):
+            op['via_code'] = True       # spelled as a generic service-code operation
     return {'ops': ops, 'multiple': draw(st.sampled_from([250, 500, 4000]))}
 
 
